@@ -101,6 +101,12 @@ func enumPairs(tier string, yield func(pairCase) bool) {
 	}
 	for _, bs := range baseShapes() {
 		variants := []exact.Shape{bs.s}
+		swap := func(p exact.P) exact.P { return exact.P{X: p.Y, Y: p.X} }
+		switch bs.name {
+		case "L", "U", "comb", "notch", "notch-hole", "zigzag-line", "straight-line", "flat-rect":
+			// the same shape with x and y exchanged: dents on vertical sides, vertical collinear runs
+			variants = append(variants, mapShape(bs.s, swap))
+		}
 		if thorough {
 			variants = append(variants, altEncoding(bs.s))
 		}
@@ -159,4 +165,4 @@ func enumPairs(tier string, yield func(pairCase) bool) {
 	}
 }
 
-const enumPairsSpace = "17 base shapes (convex, L, U, comb, notch, star, with 1-2 holes, collinear vertices, lines, rects) on the even 7x7 lattice x every point, every 2-point line and every rect of the 13x13 half-lattice and every triangle of a sub-lattice (thorough: a second encoding of each base, all triangles of the even lattice, all 3-point polylines), index none / R-tree / quadtree rotating"
+const enumPairsSpace = "17 base shapes, the concave ones also with x and y exchanged (convex, L, U, comb, notch, star, with 1-2 holes, collinear vertices, lines, rects) on the even 7x7 lattice x every point, every 2-point line and every rect of the 13x13 half-lattice and every triangle of a sub-lattice (thorough: a second encoding of each base, all triangles of the even lattice, all 3-point polylines), index none / R-tree / quadtree rotating"
